@@ -46,6 +46,7 @@ def run(check: Check):
   state_param = fi.positional_params[0]
   invs = roundcheck.inv_calls(ff)
   check.floor('R-WMEAN', 'tree_inverse_weight sites in apply', len(invs), 1)
+  roundcheck.check_no_client_filter(check, repo, fi, clients_param)
   for inv in invs:
     lm = roundcheck.check_loop_mean_site(check, repo, fi, inv, triples, 'R-WMEAN', clients_param)
     if lm is None or lm.loop is None:
